@@ -125,3 +125,45 @@ pub fn run_nonleaf_at_eof(a: &Args) -> Result<(), String> {
     Ok(())
 }
 pub fn gen_nonleaf_at_eof(r: &mut Rng) -> String { format!("n={}", r.range(5, 12)) }
+
+/// C18: index_chroms == offsets of the first line of each chromosome run (or None when not grouped).
+/// args: lines=<chrom>:<startlen>,...  each item is "<chrom letter><padding digits count>", e.g. lines=a1,a1,b3,c1  nl=1
+pub fn run_indexer(a: &Args) -> Result<(), String> {
+    let spec = a.get("lines").cloned().unwrap_or_default();
+    let final_nl = a.get("nl").map(|s| s == "1").unwrap_or(true);
+    let mut text = String::new();
+    let mut want: Vec<(u64, String)> = vec![];
+    let items: Vec<&str> = spec.split(',').filter(|s| !s.is_empty()).collect();
+    for (i, it) in items.iter().enumerate() {
+        let chrom = format!("chr{}", &it[0..1]);
+        let width: usize = it[1..].parse().unwrap_or(1);
+        if want.last().map(|w| w.1 != chrom).unwrap_or(true) { want.push((text.len() as u64, chrom.clone())); }
+        let start = format!("{:0width$}", i * 10, width = width);
+        text.push_str(&format!("{}\t{}\t{}\t1.0", chrom, start, i * 10 + 5));
+        if i + 1 < items.len() || final_nl { text.push('\n'); }
+    }
+    let grouped = { let mut names: Vec<&String> = want.iter().map(|w| &w.1).collect(); let n = names.len(); names.sort(); names.dedup(); names.len() == n };
+    let mut tf = tempfile::NamedTempFile::new().map_err(|e| e.to_string())?;
+    tf.write_all(text.as_bytes()).unwrap(); tf.flush().unwrap();
+    let f = std::fs::File::open(tf.path()).unwrap();
+    let got = std::panic::catch_unwind(|| bigtools::bed::indexer::index_chroms(f)).map_err(|_| "index_chroms panicked".to_string())?.map_err(|e| format!("index_chroms error: {}", e))?;
+    match (grouped, got) {
+        (true, Some(g)) => if g != want { return Err(format!("index {:?} but the runs start at {:?}", g, want)); },
+        (true, None) => return Err(format!("grouped file reported as not grouped; runs start at {:?}", want)),
+        (false, Some(g)) => return Err(format!("file is NOT grouped (runs {:?}) but an index was returned: {:?}", want, g)),
+        (false, None) => {}
+    }
+    Ok(())
+}
+pub fn gen_indexer(r: &mut Rng) -> String {
+    let nchrom = r.range(1, 4);
+    let mut items = vec![];
+    for c in 0..nchrom {
+        for _ in 0..r.range(1, 4) { items.push(format!("{}{}", (b'a' + c as u8) as char, if r.below(4) == 0 { r.range(8, 30) } else { 1 })); }
+    }
+    if r.below(4) == 0 && nchrom >= 2 {
+        // make it ungrouped: append another run of the first chromosome
+        for _ in 0..r.range(1, 3) { items.push(format!("a{}", 1)); }
+    }
+    format!("nl={} lines={}", r.below(2), items.join(","))
+}
